@@ -83,6 +83,13 @@ Definition atf_ok (o : popts) (ls : list pline) (i k : nat) (x : pline) : bool :
   existsb (fun k' => list_eqb pline_text_eqb (insert_at k' x ls) (insert_at k x ls) && atf_ok_at o ls i k' x)
           (seq 0 (S (length ls))).
 
+(* append_to_family's INDEX ARITHMETIC, child case, on a committed state with auto_indent_width 1 (syntax ios/asa):
+   classify_family_indent(new) = ind new - ind self; when it is 1 the code inserts at linenum + 1 (no children) or at
+   family_endpoint + 1 (children) -- both are S (family_endpoint ps i), since family_endpoint of a childless line is the
+   line itself.  None: not the child case (sibling placement / NotImplementedError), not modelled. *)
+Definition atf_child_index (ps : list (option nat)) (i self_ind new_ind : nat) : option nat :=
+  if new_ind =? S self_ind then Some (S (family_endpoint ps i)) else None.
+
 (* text effect of one operation on a COMMITTED state (line numbers = indices, links = fresh parse) *)
 Definition text_effect (o : popts) (ls : list pline) (p : op) : result (list pline) :=
   let n := length ls in
